@@ -39,6 +39,7 @@ def lower_modern_syntax(tree: ast.Module) -> ast.Module:
       * `list(map(f, xs))` -> `[f(t) for t in xs]`;
       * `np.<ufunc>(a, b, out=T)` used as a statement -> the store `T = a <op> b` it performs;
       * comparisons and negated two-armed tests in one canonical spelling (class Canon below);
+      * `t = e; return t` -> `return e`, nested single `if`s -> one `and` test, call-free tuple assignments split;
       * a module-level `P = re.compile(<literal>)` that is never re-bound: `P.search(s)` -> `re.search(<literal>, s)`;
       * `if (x := e) <op> ...:` / `y = f((x := e))`  ->  `x = e` before the statement, when the
         assignment expression is evaluated unconditionally (not under and/or, a conditional expression
@@ -223,6 +224,51 @@ def lower_modern_syntax(tree: ast.Module) -> ast.Module:
             return n
 
     tree = ast.fix_missing_locations(Canon().visit(tree))
+
+    def shape_block(stmts: list, fn_names_load: dict) -> list:
+        """One spelling for three statement shapes (inside functions):
+        * `t = e` immediately followed by `return t`, t read nowhere else  ->  `return e`
+        * `if a: <only> if b: X` (neither with an else)  ->  `if a and b: X`
+        * `a, b = x, y` with plain names on the left, call-free values and y not reading a  ->  `a = x; b = y`"""
+        out: list = []
+        for st in stmts:
+            for field in ("body", "orelse", "finalbody"):
+                sub = getattr(st, field, None)
+                if isinstance(sub, list) and sub and isinstance(sub[0], ast.stmt) and not isinstance(st, (ast.FunctionDef, ast.AsyncFunctionDef, ast.ClassDef)):
+                    setattr(st, field, shape_block(sub, fn_names_load))
+            if isinstance(st, ast.Try):
+                for h in st.handlers:
+                    h.body = shape_block(h.body, fn_names_load)
+            if isinstance(st, ast.Return) and isinstance(st.value, ast.Name) and out and isinstance(out[-1], ast.Assign) and len(out[-1].targets) == 1 and isinstance(out[-1].targets[0], ast.Name) and out[-1].targets[0].id == st.value.id and fn_names_load.get(st.value.id, 0) == 1:
+                prev = out.pop()
+                out.append(ast.copy_location(ast.Return(value=prev.value), prev))
+                continue
+            if isinstance(st, ast.If) and not st.orelse and len(st.body) == 1 and isinstance(st.body[0], ast.If) and not st.body[0].orelse:
+                inner = st.body[0]
+                vals = (st.test.values if isinstance(st.test, ast.BoolOp) and isinstance(st.test.op, ast.And) else [st.test]) + (inner.test.values if isinstance(inner.test, ast.BoolOp) and isinstance(inner.test.op, ast.And) else [inner.test])
+                out.append(ast.copy_location(ast.If(test=ast.BoolOp(op=ast.And(), values=vals), body=inner.body, orelse=[]), st))
+                continue
+            if isinstance(st, ast.Assign) and len(st.targets) == 1 and isinstance(st.targets[0], ast.Tuple) and isinstance(st.value, ast.Tuple) and len(st.targets[0].elts) == len(st.value.elts) and all(isinstance(t, ast.Name) for t in st.targets[0].elts) and not any(isinstance(x, (ast.Call, ast.NamedExpr, ast.Starred)) for x in ast.walk(st.value)):
+                names = [t.id for t in st.targets[0].elts]
+                safe = True
+                for i, v in enumerate(st.value.elts):
+                    reads = {x.id for x in ast.walk(v) if isinstance(x, ast.Name)}
+                    if reads & set(names[:i]):
+                        safe = False
+                if safe and len(set(names)) == len(names):
+                    for t, v in zip(st.targets[0].elts, st.value.elts):
+                        out.append(ast.copy_location(ast.Assign(targets=[t], value=v), st))
+                    continue
+            out.append(st)
+        return out
+
+    for fn in [x for x in ast.walk(tree) if isinstance(x, (ast.FunctionDef, ast.AsyncFunctionDef))]:
+        loads: dict = {}
+        for x in ast.walk(fn):
+            if isinstance(x, ast.Name) and isinstance(x.ctx, ast.Load):
+                loads[x.id] = loads.get(x.id, 0) + 1
+        fn.body = shape_block(fn.body, loads)
+    tree = ast.fix_missing_locations(tree)
 
     # module-level compiled regular expressions: `_P = re.compile(r"...")` ... `_P.search(s)` -> `re.search(r"...", s)`
     compiled = {}
